@@ -155,3 +155,10 @@ Inductive bal : list tk -> Prop :=
 
 Definition is_bracket (t : tk) : bool :=
   match t with TOther => false | _ => true end.
+
+(* tok->link() of token i after the createMutualLinks calls ls *)
+Fixpoint partner (ls : list (nat * nat)) (i : nat) : option nat :=
+  match ls with
+  | [] => None
+  | (o, c) :: r => if Nat.eqb o i then Some c else if Nat.eqb c i then Some o else partner r i
+  end.
